@@ -549,3 +549,85 @@ Definition err_eqb (a b : err) : bool :=
   | ELitNoField, ELitNoField | ETargetType, ETargetType | EPanic, EPanic | EUnmodelled, EUnmodelled => true
   | _, _ => false
   end.
+
+(* ------------------------------------------------------------------ correspondence cases *)
+Definition lname_eqb (a b : lname) : bool :=
+  match a, b with
+  | LField x, LField y | LExt x, LExt y => String.eqb x y
+  | _, _ => false
+  end.
+Definition npart_eqb (a b : npart) : bool :=
+  match a, b with
+  | PField x, PField y | PExt x, PExt y => String.eqb x y
+  | _, _ => false
+  end.
+Fixpoint oval_eqb (a b : oval) {struct a} : bool :=
+  match a, b with
+  | OInt x, OInt y | OUint x, OUint y => x =? y
+  | OFloat x, OFloat y => fl_eqb x y
+  | OIdent x, OIdent y => String.eqb x y
+  | OStr x, OStr y => list_N_eqb' x y
+  | OMsg fs, OMsg gs =>
+    (fix go (fs gs : list (lname * oval)) {struct fs} : bool :=
+       match fs, gs with
+       | [], [] => true
+       | (n, v) :: r, (n', v') :: s => lname_eqb n n' && oval_eqb v v' && go r s
+       | _, _ => false
+       end) fs gs
+  | OList es, OList gs =>
+    (fix go (es gs : list oval) {struct es} : bool :=
+       match es, gs with
+       | [], [] => true
+       | v :: r, v' :: s => oval_eqb v v' && go r s
+       | _, _ => false
+       end) es gs
+  | _, _ => false
+  end.
+Fixpoint list_eqb {A} (eqb : A -> A -> bool) (a b : list A) : bool :=
+  match a, b with
+  | [], [] => true
+  | x :: r, y :: s => eqb x y && list_eqb eqb r s
+  | _, _ => false
+  end.
+Definition stmt_eqb (a b : stmt) : bool :=
+  list_eqb npart_eqb (sname a) (sname b) && oval_eqb (svalue a) (svalue b).
+
+(* what the harness saw in one mode: the decoded options message and the indices (into the statement
+   list) of the options left uninterpreted; an error class; a panic; an error the model has no class for *)
+Inductive obs := ObsOk (tree : mval) (remain : list nat) | ObsErr (e : err) | ObsPanic | ObsOther.
+
+Inductive opt_case :=
+| OC (sch : schema) (tt : N) (T : nat) (stmts : list stmt) (strict lenient unlinked : obs).
+
+Definition remain_matches (stmts : list stmt) (idx : list nat) (rem : list stmt) : bool :=
+  list_eqb (fun i st => match nth_error stmts i with Some s => stmt_eqb s st | None => false end) idx rem.
+
+Definition strict_matches (sch : schema) (T : nat) (stmts : list stmt) (r : res (mval * list stmt)) (o : obs) : bool :=
+  match r, o with
+  | Err EUnmodelled, _ => true
+  | Err EPanic, ObsPanic => true
+  | Err e, ObsErr e' => err_eqb e e'
+  | Ok (m, rem), ObsOk tree idx => mval_eqb (wire sch T m) tree && remain_matches stmts idx rem
+  | _, _ => false
+  end.
+Definition lenient_matches (sch : schema) (T : nat) (stmts : list stmt) (r : lres) (o : obs) : bool :=
+  match r, o with
+  | LPanic, ObsPanic => true
+  | LOk m rem, ObsOk tree idx => mval_eqb (wire sch T m) tree && remain_matches stmts idx rem
+  | _, _ => false
+  end.
+
+Definition opt_chk (c : opt_case) : bool :=
+  match c with
+  | OC sch tt T stmts os ol ou =>
+    strict_matches sch T stmts (interpret_strict sch tt T [] stmts) os
+    && lenient_matches sch T stmts (interpret_lenient sch tt T [] stmts) ol
+    && lenient_matches sch T stmts (interpret_unlinked sch tt T [] stmts) ou
+  end.
+(* the three modes one at a time, to name the function that disagrees *)
+Definition opt_chk_strict (c : opt_case) : bool :=
+  match c with OC sch tt T stmts os _ _ => strict_matches sch T stmts (interpret_strict sch tt T [] stmts) os end.
+Definition opt_chk_lenient (c : opt_case) : bool :=
+  match c with OC sch tt T stmts _ ol _ => lenient_matches sch T stmts (interpret_lenient sch tt T [] stmts) ol end.
+Definition opt_chk_unlinked (c : opt_case) : bool :=
+  match c with OC sch tt T stmts _ _ ou => lenient_matches sch T stmts (interpret_unlinked sch tt T [] stmts) ou end.
